@@ -446,8 +446,8 @@ func c23Apply(r *vlib.Run, cs *blockchain.ChainState, s *c23State, ev c23Event, 
 		return next, false, true
 	}
 	if code != nil {
-		if useless {
-			// GP 6.35 (every submitted ticket must make it into γ_a′) — rejecting is GP-conform, the
+		if useless || len(ev.Ext) > c23K {
+			// GP 6.35 (every submitted ticket must make it into γ_a′) / GP 6.30 (|E_T| ≤ K) — rejecting is GP-conform, the
 			// statement is silent: both outcomes are allowed.
 			return next, false, true
 		}
@@ -523,6 +523,8 @@ func c23KeyHeads(ks []types.BandersnatchPublic) []byte {
 
 func c23Commit(cs *blockchain.ChainState) {
 	post := cs.GetPosteriorStates().GetState()
+	// ι′ is written by accumulation, which is not run here: carry it over as the rest of the STF would
+	post.Iota = cs.GetPriorStates().GetIota()
 	cs.GetPriorStates().SetState(post)
 	cs.GetPosteriorStates().SetState(blockchain.NewPosteriorStates().GetState())
 }
@@ -633,7 +635,7 @@ func TestVerif_C23(t *testing.T) {
 	}
 
 	ids := vlib.Pick(r, 5, 6)
-	evs := c23Events(ids, 3)
+	evs := c23Events(ids, vlib.Pick(r, 3, 4))
 
 	// frontier by the reference model (identical in every shard)
 	type node struct {
@@ -655,7 +657,7 @@ func TestVerif_C23(t *testing.T) {
 			next, verdict, useless := c23Step(&n.st, ev)
 			// histories are extended only by blocks GP 6.35 accepts too (the same successor is reached
 			// by the extrinsic without the useless tickets, which is in the alphabet)
-			if verdict == "" && !useless {
+			if verdict == "" && !useless && len(ev.Ext) <= c23K {
 				k := c23Canon(&next)
 				if !seen[k] {
 					seen[k] = true
